@@ -18,6 +18,7 @@ from pycardano.serialization import (
     ArrayCBORSerializable,
     MapCBORSerializable,
     NonEmptyOrderedSet,
+    OrderedSet,
     limit_primitive_type,
     list_hook,
 )
@@ -115,14 +116,18 @@ class TransactionWitnessSet(MapCBORSerializable):
     )
 
     def __post_init__(self):
-        # Convert lists to NonEmptyOrderedSet for fields that should use NonEmptyOrderedSet
-        if isinstance(self.vkey_witnesses, list):
+        # Convert plain lists to NonEmptyOrderedSet for fields that should use NonEmptyOrderedSet.
+        # An OrderedSet is a list too: it is kept as given, so that its use_tag choice is not lost.
+        def _is_plain_list(value):
+            return isinstance(value, list) and not isinstance(value, OrderedSet)
+
+        if _is_plain_list(self.vkey_witnesses):
             self.vkey_witnesses = NonEmptyOrderedSet(self.vkey_witnesses)
-        if isinstance(self.native_scripts, list):
+        if _is_plain_list(self.native_scripts):
             self.native_scripts = NonEmptyOrderedSet(self.native_scripts)
-        if isinstance(self.plutus_v1_script, list):
+        if _is_plain_list(self.plutus_v1_script):
             self.plutus_v1_script = NonEmptyOrderedSet(self.plutus_v1_script)
-        if isinstance(self.plutus_v2_script, list):
+        if _is_plain_list(self.plutus_v2_script):
             self.plutus_v2_script = NonEmptyOrderedSet(self.plutus_v2_script)
-        if isinstance(self.plutus_v3_script, list):
+        if _is_plain_list(self.plutus_v3_script):
             self.plutus_v3_script = NonEmptyOrderedSet(self.plutus_v3_script)
